@@ -9,7 +9,7 @@ from mc.util import fingerprint
 
 RULE = (
     "header lattice: projection {TAN, TPV (DECam PV set), TPV0 (no constant PV terms), TPVS (PV set x0.3), "
-    "TANPV (old scamp '-TAN' spelling with PV keys), SIP order 2 and 3} x CRVAL {7 points incl. both poles, "
+    "TANPV (old scamp '-TAN' spelling with PV keys), SIP order 2, 3 and 4 (fourth-order coefficients below 2.2e-16)} x CRVAL {7 points incl. both poles, "
     "near-pole, RA seam} x CD {4 scale/rotation/flip combinations} x CRPIX {centre, corner, far outside}; "
     "pixels = 4x4 (thorough 5x5) grid over the image + CRPIX + 2 seeded points; forms scalar/array/int-array.  "
     "Parts: forward (vs long-double FITS reference, CRPIX->CRVAL, lon range, distort=False, scalar==array, "
@@ -32,7 +32,7 @@ ASSUMPTIONS = [
     "SIP headers carry AP_ORDER/BP_ORDER (this implementation requires them)",
 ]
 
-PROJS = ["TAN", "TPV", "TPV0", "TPVS", "TANPV", "SIP2", "SIP3"]
+PROJS = ["TAN", "TPV", "TPV0", "TPVS", "TANPV", "SIP2", "SIP3", "SIP4"]
 CRVALS = [(10.0, 20.0), (0.0, 0.0), (1e-4, -57.0), (359.9999, 89.99), (123.0, 90.0), (45.0, -90.0), (180.0, -89.999)]
 CDS = [(0.27, 30.0, False), (0.05, 200.0, True), (2.0, 90.0, False), (0.27, 0.0, True)]
 CRPIXS = [(1024.0, 2048.0), (1.0, 1.0), (-4617.7, -8609.6)]
@@ -295,7 +295,10 @@ def main(ctx):
     # -------------------------------------------------------------- histories
     P = ((100.5, 900.0), (200.25, 1100.0))
     OPS = (("i2s", True), ("i2s", False), ("s2i", True, True), ("s2i", False, True), ("s2i", False, False),
-           ("s2i", True, False), ("jac",))
+           ("s2i", True, False), ("jac",),
+           # calls that are rejected (longitude/latitude arrays of different length; 2-d input to the root finder):
+           # whatever they raise, the object must serve the next call as if nothing had happened
+           ("bad", "lengths"), ("bad", "2d"))
 
     def do(w, op, sky):
         px = np.array(P[0])
@@ -304,6 +307,10 @@ def main(ctx):
             return w.image2sky(px, py, distort=op[1])
         if op[0] == "s2i":
             return w.sky2image(sky[0].copy(), sky[1].copy(), find=op[1], distort=op[2])
+        if op[0] == "bad":
+            if op[1] == "lengths":
+                return w.sky2image(np.array([sky[0][0], sky[0][1], sky[0][0]]), sky[1].copy())
+            return w.sky2image(np.array([[sky[0][0], sky[0][1]]]), np.array([[sky[1][0], sky[1][1]]]))
         return w.get_jacobian(px, py)
 
     HH = {
